@@ -393,9 +393,13 @@ Section Reify.
         (* chase non-nil pointers *)
         match t, old with
         | TPtr e, GPtr x =>
-          match reify_merge_value f fo e x val with
-          | Ok x' => Ok (GPtr x')
-          | r => r
+          match base_ty e with
+          | TIface => OutOfModel        (* a pointer to an interface: outside the model *)
+          | _ =>
+            match reify_merge_value f fo e x val with
+            | Ok x' => Ok (GPtr x')
+            | r => r
+            end
           end
         | TCfgPtr, GCfgV c =>
           match to_cfg val with
@@ -499,6 +503,14 @@ Section Reify.
                   (* a nil interface value is not stored *)
                   go (match x with GIfaceNil => m | _ => dict_set k x m end) r
                 end) m0 d ;;
+        (* entries the configuration does not mention are validated as they stand *)
+        _ <- (fix untouched (l : list (string * gv)) : res unit :=
+                match l with
+                | [] => Ok tt
+                | (k, x) :: r =>
+                  if dict_has k d then untouched r
+                  else _ <- rec_validate (r_vo o) e x [] ;; untouched r
+                end) m ;;
         _ <- run_validators (r_vo o) vts (WMap false (List.length m)) ;;
         Ok (GMapV m)
       | _ => OutOfModel
